@@ -7,6 +7,8 @@ CONSTANTS
   DropChoices <- DropsFull
   H = 1
   PStalls = {0, 3}
+  Observe = FALSE
+  SkipIdxStep = FALSE
   CStalls = {0, 3}
 INVARIANTS EmitScn
 CHECK_DEADLOCK FALSE
